@@ -62,8 +62,8 @@ func (c *flagNameChecker) VisitExpr(expr ast.Expr) {
 
 func (c *flagNameChecker) checkFlagName(call *ast.CallExpr, arg ast.Expr) {
 	cv := c.ctx.TypesInfo.Types[arg].Value
-	if cv == nil {
-		return // Non-constant name
+	if cv == nil || cv.Kind() != constant.String {
+		return // Non-constant name (or ill-typed code: a constant of another kind)
 	}
 	name := constant.StringVal(cv)
 	switch {
